@@ -11,5 +11,10 @@ def run(ctx):
     evs = [1, 2, 3] if ctx.tier == 'quick' else [1, 2, 3, 4]
     hs = [H('VerifC08Set', 'pkg/northbound/gnmi/v2', f, unwind=12, opts={'params': {'events': n}}, replay_timeout=40,
             hang_labels=['handler-keeps-waiting-for-a-finished-transaction']) for n in evs]
+    fa = {'pkg/northbound/admin/zz_verif_c08_admin.go': 'c08/zz_verif_c08_admin.go'}
+    hs += [H('VerifC08Rollback', 'pkg/northbound/admin', fa, unwind=12, opts={'params': {'events': n}}, replay_timeout=40,
+             hang_labels=['handler-keeps-waiting-for-a-finished-transaction']) for n in evs]
+    if ctx.only:
+        hs = [h for h in hs if h.entry in ctx.only]
     driver.check_harnesses(ctx, hs)
-    driver.write_evidence(ctx, 'model_checking', 'the real Set handler against every symbolic suffix of a transaction lifecycle', {'events': evs}, [])
+    driver.write_evidence(ctx, 'model_checking', 'the real Set and admin RollbackTransaction handlers against every symbolic suffix of a transaction lifecycle', {'events': evs}, [])
